@@ -8,6 +8,7 @@ import (
 	"math"
 	"reflect"
 	"strings"
+	"time"
 
 	"github.com/ChainSafe/sygma-relayer/config"
 	"github.com/spf13/viper"
@@ -23,6 +24,18 @@ type GeneralChainConfig struct {
 	LatestBlock    bool   `mapstructure:"latest"`
 	Key            string
 	Insecure       bool
+}
+
+// MaxDurationSeconds is the largest number of seconds a time.Duration can hold.
+const MaxDurationSeconds = uint64(math.MaxInt64 / int64(time.Second))
+
+// ValidateSeconds checks that a setting given in seconds fits a time.Duration: beyond
+// MaxDurationSeconds the conversion time.Duration(seconds) * time.Second overflows.
+func ValidateSeconds(name string, seconds uint64) error {
+	if seconds > MaxDurationSeconds {
+		return fmt.Errorf("%s has to be at most %d seconds", name, MaxDurationSeconds)
+	}
+	return nil
 }
 
 func (c *GeneralChainConfig) Validate() error {
